@@ -31,7 +31,7 @@ import (
 func init() { register("C20", checkC20) }
 
 func checkC20(ctx *Ctx, r *Report, tier string) {
-	r.Explain = "The comparator, the canonical rotation and the equality test are evaluated symbolically to comparison-only terms and decided exhaustively over the finite set of weak orderings of the values they touch: Less ≡ strict lexicographic order (46 656 assignments), Canonical ≡ min-first rotation (all orderings of 3 distinct values), Equals compares length and all three indices of both canonicalised operands. This settles invariance of the equality test under reordering of triangles and rotation of triples. The Delaunay construction itself (floating-point in-circle tests) is not decided."
+	r.Explain = "The comparator, the canonical rotation and the equality test are evaluated symbolically to comparison-only terms and decided exhaustively over the finite set of weak orderings of the values they touch: Less ≡ strict lexicographic order (46 656 assignments), Canonical ≡ min-first rotation (all orderings of 3 distinct values), Equals compares length and all three indices of both canonicalised operands. This settles invariance of the equality test under reordering of triangles and rotation of triples. The Delaunay construction itself (floating-point in-circle tests) is not decided. Also: the circumcentre closed form, the super triangle's extents, the completion flags following their triangles, the reference's plane-side test."
 	r.Exhaust = true
 	r.Trusted = []string{"go/types", "go/ssa", "sdfxlint gated symbolic evaluator", "sort.Sort sorts according to Less when Less is a strict weak order"}
 	r.Assume = []string{"index triples have three distinct entries"}
